@@ -174,3 +174,322 @@ fn enc_maps_inv() {
     });
     report(r);
 }
+
+// ---------------------------------------------------------------------------------------------
+// load_in_cache / load_in_cache_unauthenticated on a real stream
+// ---------------------------------------------------------------------------------------------
+fn ch() -> u64 {
+    CHUNK_SIZE
+}
+fn cts() -> u64 {
+    CHUNK_SIZE + TAG_LENGTH as u64
+}
+/// a real stream whose chunk `ccn` starts at ccn*CTS and of which `rem` bytes remain from there
+/// (rem <= CTS: the stream is cut after `rem` bytes of that chunk; when `exact_last` the chunk is a
+/// genuine last chunk with rem-16 plaintext bytes and a valid tag)
+fn stream_with_remaining(ccn: u64, rem: u64, exact_last: bool) -> (Vec<u8>, Vec<u8>) {
+    let plain_len = if exact_last && rem >= 16 && rem <= cts() { ccn * ch() + (rem - 16) } else { (ccn + 2) * ch() };
+    let plain = plain_of(plain_len);
+    let mut s = encrypt_stream(&plain);
+    let want = (ccn * cts() + rem) as usize;
+    if s.len() > want {
+        s.truncate(want);
+    }
+    (s, plain)
+}
+
+#[test]
+fn enc_load() {
+    let q = v_u64("q", 0);
+    let n = v_u64("n", 0);
+    let ccn = v_u64("ccn", 0) % 4;
+    let auth = v_u64("auth", 1) == 1;
+    let rem = n.saturating_sub(q);
+    let r = catch_unwind(AssertUnwindSafe(|| -> Option<String> {
+        let (mut s, _plain) = stream_with_remaining(ccn, rem.min(2 * cts()), auth);
+        if !auth && rem >= 1 {
+            // altered chunk: flip one bit inside it
+            let at = (ccn * cts()) as usize;
+            if at < s.len() {
+                s[at] ^= 0x80;
+            }
+        }
+        let total = s.len() as u64;
+        let mut l = EncryptionLayerInternal::new(Box::new(Cursor::new(s)), &reader_cfg(false)).unwrap();
+        l.inner.set_position(ccn * cts());
+        l.current_chunk_number = ccn as u32;
+        l.chunk_cache = Cursor::new(vec![7u8; 3]);
+        l.chunk_cache.set_position(2);
+        let res = l.load_in_cache();
+        let here = total - ccn * cts();
+        let got = here.min(cts());
+        match res {
+            Ok(None) if got == 0 => {}
+            Ok(None) => return Some(format!("load_in_cache returned None with {got} bytes remaining")),
+            Ok(Some(())) => {
+                if !auth || got < 16 {
+                    return Some(format!("load_in_cache accepted a chunk that cannot authenticate (remaining {got}, altered {})", !auth));
+                }
+                if l.chunk_cache.get_ref().len() as u64 != got - 16 {
+                    return Some(format!("cache holds {} bytes, expected {}", l.chunk_cache.get_ref().len(), got - 16));
+                }
+            }
+            Err(e) => {
+                if auth && got >= 16 && (got == cts() || true) {
+                    // a genuine (possibly last) chunk must verify
+                    return Some(format!("load_in_cache rejected an authentic chunk: {e:?}"));
+                }
+                if !l.chunk_cache.get_ref().is_empty() {
+                    return Some("bytes of a rejected chunk left in the cache".to_string());
+                }
+            }
+        }
+        if l.chunk_cache.position() != 0 {
+            return Some(format!("cache cursor at {} after a load", l.chunk_cache.position()));
+        }
+        if l.inner.position() != ccn * cts() + got {
+            return Some(format!("inner stream at {}, expected {}", l.inner.position(), ccn * cts() + got));
+        }
+        None
+    }));
+    report(r);
+}
+
+#[test]
+fn enc_load_unauth() {
+    let q = v_u64("q", 0);
+    let n = v_u64("n", 0);
+    let ccn = v_u64("ccn", 0) % 4;
+    let rem = n.saturating_sub(q);
+    let r = catch_unwind(AssertUnwindSafe(|| -> Option<String> {
+        let (s, plain) = stream_with_remaining(ccn, rem.min(2 * cts()), false);
+        let total = s.len() as u64;
+        let mut l = EncryptionLayerInternal::new(Box::new(Cursor::new(s)), &reader_cfg(true)).unwrap();
+        l.inner.set_position(ccn * cts());
+        l.current_chunk_number = ccn as u32;
+        l.chunk_cache = Cursor::new(vec![7u8; 3]);
+        l.chunk_cache.set_position(2);
+        let res = l.load_in_cache_unauthenticated();
+        let here = total - ccn * cts();
+        let data = here.min(ch());
+        match res {
+            Ok(None) if data == 0 => {}
+            Ok(None) => return Some(format!("unauthenticated load returned None with {here} bytes remaining")),
+            Ok(Some(())) => {
+                let c = l.chunk_cache.get_ref();
+                if c.len() as u64 != data {
+                    return Some(format!("cache holds {} bytes, {data} data bytes were present", c.len()));
+                }
+                let off = (ccn * ch()) as usize;
+                if c[..] != plain[off..off + data as usize] {
+                    return Some("unauthenticated load decrypted to bytes that differ from the plaintext".to_string());
+                }
+            }
+            Err(e) => return Some(format!("unauthenticated load failed: {e:?}")),
+        }
+        if l.chunk_cache.position() != 0 {
+            return Some(format!("cache cursor at {} after a load", l.chunk_cache.position()));
+        }
+        let want = ccn * cts() + data + (here - data).min(16);
+        if l.inner.position() != want {
+            return Some(format!("inner stream at {}, expected {want}", l.inner.position()));
+        }
+        None
+    }));
+    report(r);
+}
+
+fn auth_flags() -> [bool; 5] {
+    [v_u64("a0", 1) == 1, v_u64("a1", 1) == 1, v_u64("a2", 1) == 1, v_u64("a3", 1) == 1, v_u64("ar", 1) == 1]
+}
+fn is_auth(f: &[bool; 5], i: u64) -> bool {
+    if i < 4 { f[i as usize] } else { f[4] }
+}
+/// corrupt (flip a bit in) every chunk the solver marked as not authentic
+fn corrupt(s: &mut [u8], f: &[bool; 5]) {
+    let mut i = 0u64;
+    while i * cts() < s.len() as u64 {
+        if !is_auth(f, i) {
+            s[(i * cts()) as usize] ^= 0x01;
+        }
+        i += 1;
+    }
+}
+
+/// sequential read of the normal reader from offset c (C03: never a byte that differs)
+#[test]
+fn enc_read() {
+    let n = v_u64("n", 16);
+    let c = v_u64("c", 0);
+    let blen = v_u64("blen", 1) as usize;
+    let f = auth_flags();
+    if !wf(n) && CHUNK_SIZE == CH || n > 8 * cts() {
+        println!("REPLAY-RESULT: skipped inner length {n} not materialisable");
+        return;
+    }
+    let r = catch_unwind(AssertUnwindSafe(|| -> Option<String> {
+        let r0 = n % cts();
+        let big_l = (n / cts()) * ch() + if r0 == 0 { 0 } else { r0 - 16 };
+        let plain = plain_of(big_l);
+        let good = encrypt_stream(&plain);
+        let mut l = EncryptionLayerInternal::new(Box::new(Cursor::new(good.clone())), &reader_cfg(false)).unwrap();
+        // reach offset c on the pristine stream, then swap in the altered one (same length): what was
+        // verified so far stays verified, the next chunk load sees the alteration
+        if v_u64("by_read", 0) == 1 {
+            l.seek(SeekFrom::Start(0)).unwrap();
+            let mut sink = vec![0u8; c as usize];
+            l.read_exact(&mut sink).unwrap();
+        } else {
+            l.seek(SeekFrom::Start(c)).unwrap();
+        }
+        let mut bad = good.clone();
+        corrupt(&mut bad, &f);
+        let ipos = l.inner.position();
+        l.inner = Box::new(Cursor::new(bad));
+        l.inner.set_position(ipos);
+        let mut buf = vec![0u8; blen];
+        match l.read_internal(&mut buf) {
+            Ok(k) => {
+                let want = (blen as u64).min(ch() - c % ch()).min(big_l - c);
+                let loaded_chunk = c / ch();
+                if v_u64("by_read", 0) == 1 && c < big_l && !is_auth(&f, loaded_chunk) && k > 0 {
+                    return Some(format!("read returned {k} bytes of altered chunk {loaded_chunk}"));
+                }
+                if buf[..k] != plain[c as usize..c as usize + k] {
+                    return Some(format!("read at {c} returned bytes that differ from the original"));
+                }
+                if k as u64 != want && !(v_u64("by_read", 0) == 1 && !is_auth(&f, loaded_chunk)) {
+                    return Some(format!("read at {c} of {blen} bytes returned {k}, a cursor returns {want}"));
+                }
+                None
+            }
+            Err(_) => {
+                let loaded_chunk = c / ch();
+                if v_u64("by_read", 0) == 1 && c < big_l && !is_auth(&f, loaded_chunk) {
+                    None
+                } else {
+                    Some(format!("read at {c} failed on an unaltered chunk"))
+                }
+            }
+        }
+    }));
+    report(r);
+}
+
+/// authenticated fail-safe reader on a stream of ANY length n with chunks altered as the solver
+/// chose: output must be a prefix of the plaintext made of verified chunks only, and stay ended
+#[test]
+fn enc_fs_auth() {
+    let n = v_u64("n", 16);
+    let f = auth_flags();
+    if n > 8 * cts() {
+        println!("REPLAY-RESULT: skipped inner length {n} not materialisable");
+        return;
+    }
+    let r = catch_unwind(AssertUnwindSafe(|| -> Option<String> {
+        let chunks = n / cts() + 2;
+        let plain = plain_of(chunks * ch());
+        let mut s = encrypt_stream(&plain);
+        s.truncate(n as usize);
+        corrupt(&mut s, &f);
+        let mut rd = EncryptionLayerFailSafeReader::new(Box::new(RawLayerFailSafeReader::new(Cursor::new(s))), &reader_cfg(false)).unwrap();
+        let mut out = Vec::new();
+        let mut buf = [0u8; 8];
+        let b1 = (v_u64("b1", 8) as usize).clamp(1, 8);
+        let mut zeros = 0;
+        let mut guard = 0u64;
+        loop {
+            guard += 1;
+            if guard > 4_000_000 {
+                return Some("fail-safe read does not terminate".to_string());
+            }
+            match rd.read(&mut buf[..b1]) {
+                Ok(0) => {
+                    zeros += 1;
+                    if zeros >= 3 {
+                        break;
+                    }
+                }
+                Ok(k) => {
+                    if zeros > 0 {
+                        return Some(format!("{k} bytes returned after the reader had reported the end (data after a failed chunk is used)"));
+                    }
+                    out.extend_from_slice(&buf[..k]);
+                }
+                Err(e) => return Some(format!("authenticated fail-safe read failed with {e} instead of ending")),
+            }
+        }
+        // what may be output: chunks 0..m-1 where m = first chunk that is altered or incomplete
+        let mut m = 0u64;
+        while (m + 1) * cts() <= n && is_auth(&f, m) {
+            m += 1;
+        }
+        // chunk 0 is the known finding F4 (never verified): tolerated here, witnessed by enc_fs_first
+        let allowed = m * ch();
+        if out.len() as u64 > allowed.max(if v_u64("tolerate_f4", 1) == 1 { ch().min(n) } else { 0 }) {
+            return Some(format!("authenticated repair output {} bytes, only {allowed} are in verified chunks contiguous from the start", out.len()));
+        }
+        if (out.len() as u64) < allowed {
+            return Some(format!("authenticated repair output {} bytes, {allowed} verified bytes were available", out.len()));
+        }
+        if out.len() as u64 <= allowed && out[..] != plain[..out.len()] {
+            return Some("authenticated repair output differs from the original plaintext".to_string());
+        }
+        None
+    }));
+    report(r);
+}
+
+#[test]
+fn enc_fs_unauth() {
+    let n = v_u64("n", 16);
+    if n > 8 * cts() {
+        println!("REPLAY-RESULT: skipped inner length {n} not materialisable");
+        return;
+    }
+    let r = catch_unwind(AssertUnwindSafe(|| -> Option<String> {
+        let chunks = n / cts() + 2;
+        let plain = plain_of(chunks * ch());
+        let mut s = encrypt_stream(&plain);
+        s.truncate(n as usize);
+        let mut rd = EncryptionLayerFailSafeReader::new(Box::new(RawLayerFailSafeReader::new(Cursor::new(s))), &reader_cfg(true)).unwrap();
+        let mut out = Vec::new();
+        let b1 = (v_u64("b1", 8) as usize).clamp(1, 8);
+        let mut buf = [0u8; 8];
+        loop {
+            match rd.read(&mut buf[..b1]) {
+                Ok(0) => break,
+                Ok(k) => out.extend_from_slice(&buf[..k]),
+                Err(e) => return Some(format!("unauthenticated fail-safe read failed: {e}")),
+            }
+        }
+        let want = (n / cts()) * ch() + (n % cts()).min(ch());
+        if out.len() as u64 != want {
+            return Some(format!("unauthenticated repair output {} bytes, {want} data bytes are present in {n} stream bytes", out.len()));
+        }
+        if out[..] != plain[..out.len()] {
+            return Some("unauthenticated repair output differs from the original plaintext".to_string());
+        }
+        None
+    }));
+    report(r);
+}
+
+/// F4 witness: chunk 0 altered, authenticated mode
+#[test]
+fn enc_fs_first() {
+    let n = v_u64("n", 64).min(3 * cts()).max(17);
+    let r = catch_unwind(AssertUnwindSafe(|| -> Option<String> {
+        let plain = plain_of(4 * ch());
+        let mut s = encrypt_stream(&plain);
+        s.truncate(n as usize);
+        s[0] ^= 1;
+        let mut rd = EncryptionLayerFailSafeReader::new(Box::new(RawLayerFailSafeReader::new(Cursor::new(s))), &reader_cfg(false)).unwrap();
+        let mut buf = [0u8; 4];
+        match rd.read(&mut buf) {
+            Ok(k) if k > 0 => Some(format!("authenticated repair returned {k} bytes of chunk 0 whose ciphertext was altered (tag never checked)")),
+            _ => None,
+        }
+    }));
+    report(r);
+}
